@@ -42,7 +42,7 @@ CHECKS.update({
         'every order). Every state: no two executions of one (algorithm,target) released and unanswered; every '
         'released unit is in exactly one of queue / handed to one worker; every reply is recorded exactly once '
         'and its report propagated exactly once; crew() busy list equals the units in flight. Reload jobs: the '
-        'pipeline reloads (notify_all, farm.clear, schedule.build) at any moment with tasks queued for want of a worker. Every unit a dispatch moves to doing is accounted for (farm batch, cluster queue or a worker); jobs with one db.next() outage.',
+        'pipeline reloads (notify_all, farm.clear, schedule.build) at any moment with tasks queued for want of a worker. Every unit a dispatch moves to doing is accounted for (farm batch, cluster queue or a worker); jobs with one db.next() outage. Jobs with target names where one begins the other (A, AB), both executing at once.',
         'note': _SCHED_NOTE,
     },
     'C04': {
@@ -141,7 +141,7 @@ CHECKS.update({
         'second child re-opens from disk: catalogue opens, no entry refers to a missing file, the update is repeated '
         'and the oracle re-checked. Two-value state vectors (all pairs of updates over 3 contents per slot). Purge '
         'tool: the real db/tools/purge.py __main__ with --context-* options naming one store while the environment '
-        'names another, all 15 pairs of store histories: no catalogue entry of either store dangles. The purge tool is also run against an empty (mistyped) catalogue over a populated store.',
+        'names another, all 15 pairs of store histories: no catalogue entry of either store dangles. The purge tool is also run against an empty (mistyped) catalogue over a populated store. An update that fails half-way and is retried by the same task object; an algorithm with several state vectors sharing value names (each value reported once, under its own name).',
         'note': _STORE_NOTE + '; process-crash model (completed system calls persist, user-space buffers are lost); '
         'staging and store on one file system; read-only calls are merged with the next mutating call (same disk state).',
     },
@@ -152,7 +152,7 @@ CHECKS.update({
         'paths; per store: name/id bijection, gap-free ids, id stability, chain resolution, next run id, all again '
         'after close/reopen from disk; then 11 removes, every trace and every version reset compared with a reference '
         'computed on exact name equality; a digit-boundary store (ids 1/10/11, runs 8..101); db.tools.worm.consume for '
-        'all 23 criteria tuples over {wildcard, value} per field incl. run id 0. Fault enumeration: one failing catalogue write at every write position of a registration (3 registration paths), then the job re-run, two more registrations and a reopen.',
+        'all 23 criteria tuples over {wildcard, value} per field incl. run id 0. Fault enumeration: one failing catalogue write at every write position of a registration (3 registration paths), then the job re-run, two more registrations and a reopen. The worm tool is also started through its command line (argv) with criteria on state-vector and value names.',
         'note': _STORE_NOTE,
     },
 })
@@ -167,7 +167,7 @@ CHECKS.update({
         'yours" sent only in the step the connection acquired it, a dropped holder frees the lock in the same step, a '
         'dropped waiter never acquires and its poll timer dies, a live poll on a free lock is granted; from every state '
         'with a free lock and a live waiter a grant occurs within one poll period. The spaces are explored under three '
-        'acquire-label schemes: distinct labels, one label for all clients, empty / None labels. One configuration lets the pipeline close and re-open its data base (real DBSerializer.open) at any moment. Client tier: the real Interface.load/update ending normally / aborted / with an invalid or unpicklable value must leave the lock free and the next client served.',
+        'acquire-label schemes: distinct labels, one label for all clients, empty / None labels. One configuration lets the pipeline close and re-open its data base (real DBSerializer.open) at any moment. Client tier: the real Interface.load/update ending normally / aborted / with an invalid or unpicklable value must leave the lock free and the next client served. One long history (150 rounds, 300 labels never used before) checks that what the server remembers about past clients never gets in the way.',
         'note': 'at most 2 (thorough 3) connections per client per history; clients release only after being told they '
         'hold the lock (as comms.acquire/release do); the client side of the protocol is exercised by every store check '
         '(C06-C08, C15, C17) through the loopback.',
@@ -275,7 +275,7 @@ CHECKS.update({
         'root values change; at every quiescent state a fresh load of every (target, algorithm, value) equals the '
         'from-scratch evaluation in dependency order. Store-tier configurations: work and reply of a unit as separate '
         'events (replies of re-runs under different run ids in either order), root algorithms calling ds.update() after '
-        'each value; the reply carries the list Context.run returned verbatim.',
+        'each value; the reply carries the list Context.run returned verbatim. Engines include one value read by both an analyzer and a task.',
         'note': _SCHED_NOTE + '; store tier: a unit executes atomically when its reply is delivered except in the split configuration; task-kind algorithms; '
         'root contents carry (algorithm, value, target, epoch); resource-metric values are excluded from the state.',
     },
